@@ -398,7 +398,13 @@ def main():
             out["diverging_runs"] += 1
             d0 = res["divergences"][0]
             vio = {"run": run, "run_seed": rs, "step": d0["id"], "class": d0["class"], "n_steps": len(steps),
-                   "faulted": faulted, "all": [[d["id"], d["class"]] for d in res["divergences"]]}
+                   "faulted": faulted, "all": [[d["id"], d["class"]] for d in res["divergences"]],
+                   "cfg": {"flavour": cfg["flavour"], "schedule": cfg["schedule"], "variant": run % gen.VARIANTS,
+                           "kind": "marathon" if cfg.get("marathon") else "saturation" if cfg.get("saturation") else
+                                   "heavy" if cfg.get("heavy") else "plain",
+                           "borrow": bool(cfg.get("p_borrow")), "battery": bool(cfg.get("battery")), "echo": bool(cfg.get("p_echo")),
+                           "roundtrip": bool(cfg.get("roundtrip")), "op": by_id[d0["id"]]["op"],
+                           "probe_client_role": (prog["roles"] + ["battery"])[by_id[d0["id"]]["c"]] if by_id[d0["id"]]["c"] < len(prog["roles"]) + 1 else "?"}}
             if minimised < a.max_minimise:
                 minimised += 1
                 report_divergence(a, vio, steps, envs, d0, fuel, f"C10-{a.seed}-{a.shard}-{run}.json",
